@@ -176,6 +176,30 @@ def run_comprehension(ex, e, env):
     return env2["_out"]
 
 
+def run_dict_comprehension(ex, e, env):
+    """{k: v for x in seq} with a sidecar invariant (contract key "dictcomps": {ordinal: {...}}):
+    run as   _out = {};  for x in seq: _out[k] = v   on a dictionary TERM (PDict: newest binding
+    first, so lookups agree with Python's; a key bound twice is listed twice, which only
+    iteration over the keys could tell apart)."""
+    comps = [n for n in ast.walk(ex.fn) if isinstance(n, ast.DictComp)]
+    comps.sort(key=lambda n: (n.lineno, n.col_offset))
+    k = [i for i, n in enumerate(comps) if n is e]
+    spec = ex.contract.get("dictcomps", {}).get(k[0]) if k else None
+    if spec is None or len(e.generators) != 1 or e.generators[0].ifs:
+        return None
+    g = e.generators[0]
+    stmts = [ast.Assign([ast.Subscript(ast.Name("_out", ast.Load()), e.key, ast.Store())], e.value)]
+    loop = ast.For(g.target, g.iter, stmts, [], None)
+    for n in ast.walk(loop):
+        if not hasattr(n, "lineno"):
+            n.lineno = e.lineno
+            n.col_offset = e.col_offset
+    env2 = dict(env)
+    env2["_out"] = Z(ex.P.PDict(ex.S.nil, ex.S.nil), fresh="shallow", origin="dict comprehension")
+    run_for(ex, loop, env2, spec=spec, label=f"dictcomp{k[0]}")
+    return env2["_out"]
+
+
 def run_for(ex, s, env, spec=None, label=None):
     k0 = ordinal(ex.fn, s) if spec is None else label
     spec0 = ex.contract.get("loops", {}).get(k0) if spec is None else spec
